@@ -33,6 +33,10 @@ def _dists():
         "normal": lambda: N2(),
         "T(Normal,Affine)": lambda: fd.Transformed(N2(), fb.Affine(jnp.array([1.0, 2.0]), jnp.array([0.5, 3.0]))),
         "T(StdNormal,Exp)": lambda: fd.Transformed(fd.StandardNormal((2,)), fb.Exp((2,))),
+        "T(Uniform,Affine) [bounded-support base]": lambda: fd.Transformed(fd.Uniform(jnp.array([0.0, -1.0]), jnp.array([1.0, 2.0])), fb.Affine(jnp.array([1.0, 2.0]), jnp.array([0.5, 3.0]))),
+        "T(Exponential,Affine) [half-line base]": lambda: fd.Transformed(fd.Exponential(jnp.array([1.5, 0.7])), fb.Affine(jnp.array([1.0, 2.0]), jnp.array([0.5, 3.0]))),
+        "Uniform [= Transformed(standard uniform, Affine)]": lambda: fd.Uniform(jnp.array([0.0, -1.0]), jnp.array([1.0, 2.0])),
+        "Exponential [= Transformed(standard exponential, Scale)]": lambda: fd.Exponential(jnp.array([1.5, 0.7])),
         "LogNormal": lambda: fd.LogNormal(jnp.array([0.1, 0.2]), jnp.array([1.1, 0.9])),
         "T(StdNormal,Tanh)": lambda: fd.Transformed(fd.StandardNormal(()), fb.Tanh()),
         "T(StdNormal,SoftPlus)": lambda: fd.Transformed(fd.StandardNormal(()), fb.SoftPlus()),
@@ -56,7 +60,7 @@ def _dists():
     return D
 
 
-QUICK = ["T(Normal,Affine)", "T(StdNormal,Exp)", "LogNormal", "T(StdNormal,Tanh)", "T(StdNormal,SoftPlus)", "T(StdNormal,Invert(Affine))",
+QUICK = ["T(Normal,Affine)", "T(Uniform,Affine) [bounded-support base]", "T(Exponential,Affine) [half-line base]", "Uniform [= Transformed(standard uniform, Affine)]", "Exponential [= Transformed(standard exponential, Scale)]", "T(StdNormal,Exp)", "LogNormal", "T(StdNormal,Tanh)", "T(StdNormal,SoftPlus)", "T(StdNormal,Invert(Affine))",
          "T(Normal,AdditiveCondition) [conditional bijection, unconditional base]", "T(T(Normal,AdditiveCondition),Affine) [conditional base, unconditional bijection]",
          "nested with Chain levels", "coupling_flow(invert=True)", "coupling_flow(invert=False)", "coupling_flow(invert=True,cond)", "maf(invert=True)", "maf(invert=False,cond)",
          "planar_flow(invert=True)", "planar_flow(invert=False)", "coupling_flow(2 layers)"]
@@ -95,6 +99,24 @@ def _cmp(name, label, ctx, lhs, rhs, assume_ok_rhs=True):
     from ..jx import toz
     lhs = np.asarray(lhs, dtype=object)
     rhs = np.asarray(rhs, dtype=object)
+    # phase 0: infinities agree - where the specification side is exactly -inf (+inf) so is the implementation side (a huge finite number or
+    # NaN instead of -inf is a wrong density)
+    for idx in np.ndindex(np.shape(rhs)):
+        rt_, ro_, ri_ = jx.split(rhs[idx])
+        lt_, lo_, li_ = jx.split(lhs[idx])
+        if not jx.is_z(ri_) and ri_ == 0:
+            continue
+        for sgn in (-1, 1):
+            if not jx.is_z(ri_) and ri_ != sgn:
+                continue
+            pre_inf = jx.band(ro_, (ri_ == sgn))
+            if pre_inf is False:
+                continue
+            goal = jx.band(lo_, (li_ == sgn))
+            st0, m0 = jx.check(ctx, list(PRE) + ([toz(pre_inf)] if jx.is_z(pre_inf) else []), toz(goal) if jx.is_z(goal) else z3.BoolVal(bool(goal)),
+                               name=f"C03/{name}/{label}: specification {'-' if sgn < 0 else '+'}inf => implementation {'-' if sgn < 0 else '+'}inf")
+            if st0 != "unsat":
+                return st0, m0, f"element {idx}: the specification side is {'-' if sgn < 0 else '+'}inf but the implementation side is not"
     okr = all_ok(rhs)
     if okr is False:
         return "error", None, "specification side is undefined everywhere"
@@ -250,9 +272,29 @@ def replay(name, kind):
             mg = d.merge_transforms()
             if not np.allclose(mg.log_prob(x, *cb), d.log_prob(x, *cb), rtol=1e-8, atol=1e-8) or not np.allclose(mg.sample(k, (), *cb), x, rtol=1e-8, atol=1e-8):
                 bad.append(f"merge_transforms changed the distribution: log_prob {float(mg.log_prob(x, *cb))} vs {float(d.log_prob(x, *cb))}; sample {np.asarray(mg.sample(k, (), *cb)).tolist()} vs {np.asarray(x).tolist()}")
+    if kind in ("log_prob", "merge"):
+        # fixed probe points, including points whose inverse image lies outside the base support (the density there is exactly -inf)
+        bc = cb if d.bijection.cond_shape is not None else ()
+        dc = cb if d.base_dist.cond_shape is not None else ()
+        for v in (-2.0, -0.5, 0.0, 0.5, 2.0):
+            x = jnp.full(d.shape, v)
+            try:
+                z, ld = d.bijection.inverse_and_log_det(x, *bc)
+                want = np.asarray(d.base_dist.log_prob(z, *dc) + ld, dtype=float)
+                want = np.where(np.isnan(want), -np.inf, want)
+                got = np.asarray(d.log_prob(x, *cb), dtype=float)
+                if kind == "merge" and isinstance(d.base_dist, fd.AbstractTransformed):
+                    got = np.asarray(d.merge_transforms().log_prob(x, *cb), dtype=float)
+                    want = np.asarray(d.log_prob(x, *cb), dtype=float)
+            except Exception as e:  # noqa
+                continue
+            same_inf = np.array_equal(np.isinf(want), np.isinf(got)) and np.array_equal(np.sign(want[np.isinf(want)]), np.sign(got[np.isinf(got)]))
+            fin = np.isfinite(want)
+            if np.any(np.isnan(got)) or not same_inf or not np.allclose(got[fin], want[fin], rtol=1e-8, atol=1e-8):
+                bad.append(f"log_prob({v}) = {got.tolist()} but base log-density at the inverse image + inverse log-det = {want.tolist()}")
     return bool(bad), "; ".join(bad[:2]) or "identities hold on the replay points"
 
 
 def obligations(tier, seed):
     names = QUICK if tier == "quick" else THOROUGH
-    return [dict(name=n, func="c03:ob_dist", kwargs=dict(name=n), cost=10 if "flow" in n or "maf" in n else 2) for n in names]
+    return [dict(name=n, func="c03:ob_dist", kwargs=dict(name=n), cost=10 if "flow" in n or "maf" in n else 2, replay=dict(func="c03:replay", kwargs=dict(name=n, kind="log_prob"))) for n in names]
